@@ -1065,3 +1065,119 @@ Theorem split_no_chars m ms keep skipnone lm list_end l :
   split_at_chars m ms keep skipnone lm list_end l =
   Ok (if nonempty (live skipnone l) || keep then [flush (live skipnone l) list_end] else []).
 Proof. intros H. unfold split_at_chars. rewrite split_loop_no_chars by exact H. reflexivity. Qed.
+
+(** * Every returned list is a [flush]: its [pos_end] is the start of the
+    separator that ended it (or the end of the whole list) and its [pos] is
+    that of its first node (or, when empty, its [pos_end]) *)
+Section Spans.
+  Variable m : matcher.
+  Variable ms : option nat.
+  Variable keep skipnone : bool.
+  Variable lm : nmode.
+  Variable list_end : option nat.
+  Variable l0 : items.
+
+  Definition sep_start (pe : option nat) : Prop :=
+    exists p e md chars prev i j,
+      In (Some (NChars p e md chars)) l0 /\ m chars prev = Some (i, j) /\ prev <= i < j /\ pe = Some (p + i).
+
+  Definition part_span (part : node) : Prop :=
+    exists nodes pe, part = flush nodes pe /\ (pe = list_end \/ sep_start pe).
+
+  Lemma chars_loop_spans p e md chars : In (Some (NChars p e md chars)) l0 ->
+    forall fuel prev parts pend parts' pend',
+    chars_loop m ms keep lm fuel (NChars p e md chars) p chars prev parts pend = Ok (parts', pend') ->
+    Forall part_span parts -> Forall part_span parts'.
+  Proof.
+    intros I. induction fuel as [|f IH]; intros prev parts pend parts' pend' H A; [discriminate|].
+    cbn [chars_loop] in H.
+    destruct (next_split m ms (length parts) chars prev) as [[i j]|] eqn:NS.
+    - apply next_split_some in NS.
+      destruct (Nat.leb prev i && Nat.ltb i j) eqn:G; cbn [negb] in H; [|discriminate].
+      apply andb_true_iff in G. destruct G as [G1 G2]. apply Nat.leb_le in G1. apply Nat.ltb_lt in G2.
+      assert (S : sep_start (Some (p + i))) by (exists p, e, md, chars, prev, i, j; repeat split; auto).
+      destruct (Nat.eqb prev 0); (apply IH in H; [exact H|]);
+        (destruct (_ || keep); [|exact A]); apply Forall_app; (split; [exact A|]);
+        (constructor; [|constructor]); eexists _, _; (split; [reflexivity|right; exact S]).
+    - destruct (Nat.eqb prev 0); inversion H; subst; exact A.
+  Qed.
+
+  Lemma split_loop_spans : forall l parts pend res,
+    (forall o, In o l -> In o l0) ->
+    split_loop m ms keep skipnone lm list_end l parts pend = Ok res ->
+    Forall part_span parts -> Forall part_span res.
+  Proof.
+    induction l as [|o l IH]; intros parts pend res SUB H A.
+    - cbn [split_loop] in H. inversion H; subst. destruct (_ || keep); [|exact A].
+      apply Forall_app. split; [exact A|]. constructor; [|constructor]. eexists _, _. split; [reflexivity|left; reflexivity].
+    - assert (SUB' : forall o', In o' l -> In o' l0) by (intros; apply SUB; right; assumption).
+      destruct o as [nd|]; [|cbn [split_loop] in H; eapply IH; eauto].
+      destruct nd; cbn [split_loop] in H; try (eapply IH; eauto; fail); [|discriminate].
+      destruct (chars_loop m ms keep lm (S (length chars)) (NChars p e m0 chars) p chars 0 parts pend)
+        as [[parts1 pend1]|] eqn:CL; [|discriminate].
+      eapply chars_loop_spans in CL; [|apply SUB; left; reflexivity|exact A]. eapply IH; eauto.
+  Qed.
+End Spans.
+
+Theorem split_part_spans m ms keep skipnone lm list_end l parts :
+  split_at_chars m ms keep skipnone lm list_end l = Ok parts ->
+  Forall (part_span m list_end l) parts.
+Proof.
+  intros H. eapply split_loop_spans; [|exact H|constructor]. auto.
+Qed.
+
+(** * Witnesses *)
+Definition lit_comma : matcher := m_lit [44%N].
+Definition ex_chars (p : nat) (s : str) : option node := Some (NChars p (p + length s) text_mode s).
+
+(** with [max_split] given, keep_empty=False is not a filter of keep_empty=True *)
+Lemma drop_empty_maxsplit_witness :
+  let l := [ex_chars 0 [44; 97; 44; 44; 98; 44]%N] in      (* ",a,,b," *)
+  split_at_chars lit_comma (Some 1) false true text_mode (Some 6) l <>
+  res_map (filter ne_part) (split_at_chars lit_comma (Some 1) true true text_mode (Some 6) l).
+Proof. vm_compute. discriminate. Qed.
+
+(** [split_at_node(max_split=2)] performs a single split although three separators are there *)
+Lemma split_at_node_count_witness :
+  let sep := Some (NComment 0 1 text_mode [] []) in
+  let l := [sep; sep; sep] in
+  let pr := fun o : option node => match o with Some (NComment _ _ _ _ _) => true | _ => false end in
+  length (split_at_node pr true false (Some 2) l) = 2 /\ length (split_at_node pr true false None l) = 4.
+Proof. vm_compute. split; reflexivity. Qed.
+
+(** * max_split: the last part is the unsplit remainder (literal separator) *)
+Lemma join_prefix (sep : str) (A B : list str) : B <> [] ->
+  join sep (A ++ B) = concat (map (fun a => a ++ sep) A) ++ join sep B.
+Proof.
+  intros NE. induction A as [|a A IH]; [reflexivity|].
+  cbn [app map concat]. rewrite <- app_assoc, <- IH.
+  destruct (A ++ B) as [|x t] eqn:E.
+  - apply app_eq_nil in E. destruct E; congruence.
+  - change (join sep (a :: x :: t)) with (a ++ sep ++ join sep (x :: t)). rewrite app_assoc. reflexivity.
+Qed.
+
+Theorem split_max_remainder (vb : node -> str) (sep : str) n skipnone lm list_end l rn rf :
+  split_at_chars (m_lit sep) (Some n) true skipnone lm list_end l = Ok rn ->
+  split_at_chars (m_lit sep) None true skipnone lm list_end l = Ok rf ->
+  n < length rf ->
+  exists rem, rn = firstn n rf ++ [rem] /\
+              verb_part vb rem = join sep (map (verb_part vb) (skipn n rf)).
+Proof.
+  intros Hn Hf L.
+  destruct (split_max_prefix _ _ _ _ _ _ _ _ Hn Hf) as [P1 P2].
+  pose proof (split_joins_literal vb _ _ _ _ _ _ _ Hn) as Jn.
+  pose proof (split_joins_literal vb _ _ _ _ _ _ _ Hf) as Jf.
+  assert (LN : length rn = S n) by lia.
+  assert (E : exists rem, skipn n rn = [rem]).
+  { pose proof (skipn_length n rn) as SL. rewrite LN in SL.
+    destruct (skipn n rn) as [|x [|y t]]; cbn [length] in SL;
+      [exfalso; lia | exists x; reflexivity | exfalso; lia]. }
+  destruct E as [rem E]. exists rem.
+  assert (RN : rn = firstn n rf ++ [rem]) by (rewrite <- P1, <- E; symmetry; apply firstn_skipn).
+  split; [exact RN|].
+  rewrite RN in Jn. rewrite <- (firstn_skipn n rf) in Jf at 1. rewrite <- Jf in Jn.
+  rewrite !map_app in Jn. rewrite !join_prefix in Jn.
+  - apply app_inv_head in Jn. exact Jn.
+  - intros C. apply map_eq_nil in C. pose proof (skipn_length n rf) as SL. rewrite C in SL. cbn in SL. lia.
+  - discriminate.
+Qed.
